@@ -1,4 +1,4 @@
-// The C07 model family: six model types connected by belongs-to / has-one / has-many /
+// The C07 model families: six model types connected by belongs-to / has-one / has-many /
 // many-to-many relations (one connected component, with cycles: Author <-> Book, Author <->
 // Company) plus two relation-free models. Every key is explicit (no generated keys), so a
 // goroutine that only uses keys of its own range gets schedule independent results.
@@ -70,6 +70,44 @@ type Widget struct {
 	DeletedAt gorm.DeletedAt
 }
 
+// A second family, unrelated to the first: one shared target type (Parcel) that is the has-many /
+// has-one target of four different owner types. Every owner's parse registers a reverse relation
+// in Parcel's relation map, so "Parcel warm, owners used for the first time by several goroutines"
+// exercises writes of several parses into one published schema.
+type Parcel struct {
+	ID        uint `gorm:"primaryKey;autoIncrement:false"`
+	Label     string
+	Weight    int
+	DepotID   *uint
+	CourierID *uint
+	CustomsID *uint
+	SorterID  *uint
+}
+
+type Depot struct {
+	ID      uint `gorm:"primaryKey;autoIncrement:false"`
+	Name    string
+	Parcels []Parcel `gorm:"foreignKey:DepotID"`
+}
+
+type Courier struct {
+	ID      uint `gorm:"primaryKey;autoIncrement:false"`
+	Name    string
+	Parcels []Parcel `gorm:"foreignKey:CourierID"`
+}
+
+type Customs struct {
+	ID      uint `gorm:"primaryKey;autoIncrement:false"`
+	Name    string
+	Parcels []Parcel `gorm:"foreignKey:CustomsID"`
+}
+
+type Sorter struct {
+	ID     uint `gorm:"primaryKey;autoIncrement:false"`
+	Name   string
+	Parcel *Parcel `gorm:"foreignKey:SorterID"` // has one
+}
+
 // model kinds
 const (
 	mCompany = iota
@@ -80,13 +118,42 @@ const (
 	mTag
 	mGadget
 	mWidget
+	mParcel
+	mDepot
+	mCourier
+	mCustoms
+	mSorter
 	nModels
 )
 
-var modelNames = [nModels]string{"Company", "Author", "Profile", "Book", "Review", "Tag", "Gadget", "Widget"}
-var modelTables = [nModels]string{"companies", "authors", "profiles", "books", "reviews", "tags", "gadgets", "widgets"}
+var modelNames = [nModels]string{"Company", "Author", "Profile", "Book", "Review", "Tag", "Gadget", "Widget", "Parcel", "Depot", "Courier", "Customs", "Sorter"}
+var modelTables = [nModels]string{"companies", "authors", "profiles", "books", "reviews", "tags", "gadgets", "widgets", "parcels", "depots", "couriers", "customs", "sorters"}
 
-func related(m int) bool { return m < mGadget }
+// family: 1 = Company..Tag, 2 = Parcel and its owners, 0 = relation-free.
+func family(m int) int {
+	switch {
+	case m < mGadget:
+		return 1
+	case m >= mParcel:
+		return 2
+	}
+	return 0
+}
+
+var (
+	family1Models = []int{mCompany, mAuthor, mProfile, mBook, mReview, mTag}
+	family2Models = []int{mParcel, mDepot, mCourier, mCustoms, mSorter}
+	parcelOwners  = []int{mDepot, mCourier, mCustoms, mSorter}
+	freeModels    = []int{mGadget, mWidget}
+)
+
+// parcelRel: the name of an owner's relation to Parcel.
+func parcelRel(owner int) string {
+	if owner == mSorter {
+		return "Parcel"
+	}
+	return "Parcels"
+}
 
 func newModel(m int) interface{} {
 	switch m {
@@ -106,6 +173,16 @@ func newModel(m int) interface{} {
 		return &Gadget{}
 	case mWidget:
 		return &Widget{}
+	case mParcel:
+		return &Parcel{}
+	case mDepot:
+		return &Depot{}
+	case mCourier:
+		return &Courier{}
+	case mCustoms:
+		return &Customs{}
+	case mSorter:
+		return &Sorter{}
 	}
 	panic("harness: bad model kind")
 }
@@ -126,6 +203,11 @@ var ddl = []string{
 	"CREATE TABLE `author_tags` (`author_id` integer,`tag_id` integer,PRIMARY KEY (`author_id`,`tag_id`))",
 	"CREATE TABLE `gadgets` (`id` integer,`name` text,`qty` integer,PRIMARY KEY (`id`))",
 	"CREATE TABLE `widgets` (`id` integer,`code` text,`weight` real,`deleted_at` datetime,PRIMARY KEY (`id`))",
+	"CREATE TABLE `parcels` (`id` integer,`label` text,`weight` integer,`depot_id` integer,`courier_id` integer,`customs_id` integer,`sorter_id` integer,PRIMARY KEY (`id`))",
+	"CREATE TABLE `depots` (`id` integer,`name` text,PRIMARY KEY (`id`))",
+	"CREATE TABLE `couriers` (`id` integer,`name` text,PRIMARY KEY (`id`))",
+	"CREATE TABLE `customs` (`id` integer,`name` text,PRIMARY KEY (`id`))",
+	"CREATE TABLE `sorters` (`id` integer,`name` text,PRIMARY KEY (`id`))",
 }
 
 // ---- rendering (results are compared as text) ---------------------------------------------------
@@ -221,6 +303,24 @@ func renderWidget(w *Widget) string {
 	return s + "}"
 }
 
+func renderParcel(p *Parcel) string {
+	if p == nil {
+		return "nil"
+	}
+	return fmt.Sprintf("Parcel{%d %q %d d=%s c=%s u=%s s=%s}", p.ID, p.Label, p.Weight, up(p.DepotID), up(p.CourierID), up(p.CustomsID), up(p.SorterID))
+}
+
+func renderParcels(ps []Parcel) string {
+	if ps == nil {
+		return ""
+	}
+	parts := make([]string, len(ps))
+	for i := range ps {
+		parts[i] = renderParcel(&ps[i])
+	}
+	return " parcels=[" + strings.Join(sortedStrings(parts), ",") + "]"
+}
+
 // render renders a model pointer or a pointer to a slice of models. Slices are sorted by the
 // rendered text of their members only where the query gave no order (the callers always order).
 func render(v interface{}) string {
@@ -241,6 +341,20 @@ func render(v interface{}) string {
 		return renderGadget(x)
 	case *Widget:
 		return renderWidget(x)
+	case *Parcel:
+		return renderParcel(x)
+	case *Depot:
+		return fmt.Sprintf("Depot{%d %q%s}", x.ID, x.Name, renderParcels(x.Parcels))
+	case *Courier:
+		return fmt.Sprintf("Courier{%d %q%s}", x.ID, x.Name, renderParcels(x.Parcels))
+	case *Customs:
+		return fmt.Sprintf("Customs{%d %q%s}", x.ID, x.Name, renderParcels(x.Parcels))
+	case *Sorter:
+		s := fmt.Sprintf("Sorter{%d %q", x.ID, x.Name)
+		if x.Parcel != nil {
+			s += " parcel=" + renderParcel(x.Parcel)
+		}
+		return s + "}"
 	}
 	rv := reflect.ValueOf(v)
 	if rv.Kind() == reflect.Ptr && rv.Elem().Kind() == reflect.Slice {
